@@ -193,6 +193,7 @@ pub fn cfg_for(t: Tier, exact: bool) -> GenCfg {
 pub fn dispatch(kind: &str, v: &Value) -> Option<Outcome> {
     match kind {
         "c10" => serde_json::from_value::<Case10>(v.clone()).ok().map(|c| c.run()),
+        "fan-in" => serde_json::from_value::<crate::scale::FanInCase>(v.clone()).ok().map(|c| c.run()),
         _ => None,
     }
 }
@@ -200,6 +201,10 @@ pub fn dispatch(kind: &str, v: &Value) -> Option<Outcome> {
 pub fn campaigns(ctx: &Ctx) -> Stats {
     let mut st = Stats::default();
     let t = ctx.tier;
+    {
+        let fan = crate::scale::fan_in_cases("c10", t == Tier::Thorough);
+        st.merge(ctx.run_indexed("one-node-consumed-up-to-70001-times", fan.len() as u64, None, |i| Some(fan[i as usize].clone())));
+    }
     let (len, total) = t.pick((20usize, 40000u64), (70, 300000));
     for (name, exact) in [("exact-histories", true), ("mixed-histories", false)] {
         let cfg = cfg_for(t, exact);
